@@ -103,6 +103,9 @@ def rand_value(rng, depth=0, maxdepth=3, dup_keys=False):
         keys = list(dict.fromkeys(keys))
         n = len(keys)
     kids = [rand_value(rng, depth + 1, maxdepth) for _ in range(n)]
+    # a string value is sometimes the text of one of the map's own keys
+    kids = [(enc_str(rng, kk), node("s", kk)) if rng.random() < 0.2 else kid
+            for kid, kk in zip(kids, [rng.choice(keys) if keys else b"" for _ in kids])]
     hdr = enc_len(rng, n, (0x80, 16), [(0xDE, 2), (0xDF, 4)])
     body = b"".join(enc_str(rng, k_) + b for k_, (b, _) in zip(keys, kids))
     return hdr + body, node("o", c=[node("m", k_, [v]) for k_, (_, v) in zip(keys, kids)])
